@@ -38,6 +38,7 @@ func isTagOpenByte(d int64) bool {
 func ruleFRTagSkip(c *Ctx) {
 	c.Rule("FR-TAGSKIP", "In filterRaw, every advance of the scan index that is not a constant step (the jump over a tag) is (open) taken only when the byte after `<` is one an HTML tokenizer accepts as opening markup — an ASCII letter, `/`, `!` or `?` (exact set by BSET path-conditioning on that byte); for any other byte the tokenizer emits `<` as text and goes on scanning, so a tag before the next `>` would be live but never shown to the predicate; and (end) lands on the first `>` after the `<` or at the end of the input: the value is built only from len(input) and the result of bytes.IndexByte(input[from:], '>') with from at the cursor — a later end (quote-aware scanning, for instance) can hide a tag an HTML tokenizer sees.")
 	p := c.P
+	theProgram = p
 	fn := p.Method("renderState", "filterRaw")
 	if !c.NeedFunc("FR-TAGSKIP", fn, "(*renderState).filterRaw") {
 		return
@@ -165,13 +166,18 @@ func tagEndShape(v ssa.Value, input ssa.Value, idx *ssa.Phi) (bool, string) {
 func tagEndShapeIn(v ssa.Value, input ssa.Value, idx *ssa.Phi, depth int) (bool, string, bool) {
 	sawIndex := false
 	seen := map[ssa.Value]bool{}
-	var w func(v ssa.Value) (bool, string)
-	w = func(v ssa.Value) (bool, string) {
+	var w func(v ssa.Value, env *callEnv) (bool, string)
+	isInput := func(v ssa.Value, env *callEnv) bool {
+		r, renv := env.resolve(v)
+		return renv == nil && r == input
+	}
+	w = func(v ssa.Value, env *callEnv) (bool, string) {
+		v, env = env.resolve(v)
 		if seen[v] {
 			return true, ""
 		}
 		seen[v] = true
-		if idx != nil && v == ssa.Value(idx) {
+		if env == nil && idx != nil && v == ssa.Value(idx) {
 			return true, ""
 		}
 		switch x := v.(type) {
@@ -179,7 +185,7 @@ func tagEndShapeIn(v ssa.Value, input ssa.Value, idx *ssa.Phi, depth int) (bool,
 			return true, ""
 		case *ssa.Phi:
 			for _, e := range x.Edges {
-				if ok, why := w(e); !ok {
+				if ok, why := w(e, env); !ok {
 					return false, why
 				}
 			}
@@ -188,13 +194,13 @@ func tagEndShapeIn(v ssa.Value, input ssa.Value, idx *ssa.Phi, depth int) (bool,
 			if x.Op != token.ADD {
 				return false, "arithmetic other than addition: " + x.String()
 			}
-			if ok, why := w(x.X); !ok {
+			if ok, why := w(x.X, env); !ok {
 				return false, why
 			}
-			return w(x.Y)
+			return w(x.Y, env)
 		case *ssa.Call:
 			if call, ok := isBuiltinCall(x, "len"); ok {
-				if call.Call.Args[0] == input {
+				if isInput(call.Call.Args[0], env) {
 					return true, ""
 				}
 				return false, "length of something other than the input"
@@ -202,18 +208,18 @@ func tagEndShapeIn(v ssa.Value, input ssa.Value, idx *ssa.Phi, depth int) (bool,
 			f := x.Call.StaticCallee()
 			if f != nil && f.Pkg != nil && f.Pkg.Pkg.Path() == "bytes" && f.Name() == "IndexByte" {
 				k, isC := constInt(x.Call.Args[1])
-				sl, isSl := x.Call.Args[0].(*ssa.Slice)
 				if !isC || k != '>' {
 					return false, "the byte searched for is not '>'"
 				}
-				if x.Call.Args[0] == input {
+				if isInput(x.Call.Args[0], env) {
 					sawIndex = true
 					return true, ""
 				}
-				if !isSl || sl.X != input || sl.High != nil {
+				sl, isSl := x.Call.Args[0].(*ssa.Slice)
+				if !isSl || !isInput(sl.X, env) || sl.High != nil {
 					return false, "the search does not run over the rest of the input"
 				}
-				if sl.Low != nil && !searchStartOK(sl.Low, idx) {
+				if sl.Low != nil && !searchStartOK(sl.Low, env, idx) {
 					return false, "the search for '>' starts later than the byte after `<`"
 				}
 				sawIndex = true
@@ -221,8 +227,8 @@ func tagEndShapeIn(v ssa.Value, input ssa.Value, idx *ssa.Phi, depth int) (bool,
 			}
 			// a module helper applied to the rest of the input: its results must have the same shape, relative to its parameter
 			if f != nil && f.Blocks != nil && len(x.Call.Args) == 1 && len(f.Params) == 1 && depth < 2 {
-				if sl, isSl := x.Call.Args[0].(*ssa.Slice); isSl && sl.X == input && sl.High == nil {
-					if sl.Low != nil && !searchStartOK(sl.Low, idx) {
+				if sl, isSl := x.Call.Args[0].(*ssa.Slice); isSl && isInput(sl.X, env) && sl.High == nil {
+					if sl.Low != nil && !searchStartOK(sl.Low, env, idx) {
 						return false, "the search for '>' starts later than the byte after `<`"
 					}
 					for _, r := range returnsOf(f) {
@@ -240,12 +246,58 @@ func tagEndShapeIn(v ssa.Value, input ssa.Value, idx *ssa.Phi, depth int) (bool,
 					return true, ""
 				}
 			}
-			return false, "computed by a call to " + calleeName(&x.Call)
+		}
+		// a result of a module helper that receives the input and the cursor as they are (the tag branch moved into a method)
+		if rets, cenv, ok := calleeResultsAny(v, env); ok {
+			for _, rv := range rets {
+				if ok, why := w(rv, cenv); !ok {
+					return false, why
+				}
+			}
+			return true, ""
 		}
 		return false, fmt.Sprintf("depends on %s", v.String())
 	}
-	ok, why := w(v)
+	ok, why := w(v, nil)
 	return ok, why, sawIndex
+}
+
+var theProgram *Program // set by the rule that uses tagEndShape
+
+// calleeResultsAny is calleeResults without the module test (the caller only reaches module code).
+func calleeResultsAny(v ssa.Value, outer *callEnv) ([]ssa.Value, *callEnv, bool) {
+	return calleeResults(theProgram, v, outer)
+}
+
+// searchStartOK: low is the cursor or the cursor plus one (the byte after `<`), possibly seen through helper
+// parameters; inside a single-argument search helper (idx == nil, env == nil) it is 0.
+func searchStartOK(low ssa.Value, env *callEnv, idx *ssa.Phi) bool {
+	var off func(v ssa.Value, env *callEnv, d int) (int64, bool)
+	off = func(v ssa.Value, env *callEnv, d int) (int64, bool) {
+		v, env = env.resolve(v)
+		if d > 6 {
+			return 0, false
+		}
+		if env == nil && idx != nil && v == ssa.Value(idx) {
+			return 0, true
+		}
+		if bo, ok := v.(*ssa.BinOp); ok && bo.Op == token.ADD {
+			if k, ok := constInt(bo.Y); ok {
+				b, ok := off(bo.X, env, d+1)
+				return b + k, ok
+			}
+			if k, ok := constInt(bo.X); ok {
+				b, ok := off(bo.Y, env, d+1)
+				return b + k, ok
+			}
+		}
+		return 0, false
+	}
+	if k, ok := constInt(low); ok {
+		return idx == nil && env == nil && k == 0
+	}
+	k, ok := off(low, env, 0)
+	return ok && k >= 0 && k <= 1
 }
 
 // TAGNAME-SET: the function that measures the tag name handed to FilterTag stops at every byte that ends a tag name
@@ -399,21 +451,3 @@ func ruleTagNameSet(c *Ctx) {
 	}
 }
 
-// searchStartOK: low is the cursor or the cursor plus one (the byte after `<`); inside a helper (idx == nil) it is 0.
-func searchStartOK(low ssa.Value, idx *ssa.Phi) bool {
-	if k, ok := constInt(low); ok {
-		return idx == nil && k == 0
-	}
-	if idx == nil {
-		return false
-	}
-	if low == ssa.Value(idx) {
-		return true
-	}
-	if bo, ok := low.(*ssa.BinOp); ok && bo.Op == token.ADD && bo.X == ssa.Value(idx) {
-		if k, ok := constInt(bo.Y); ok {
-			return k >= 0 && k <= 1
-		}
-	}
-	return false
-}
